@@ -861,4 +861,31 @@ def R7_flatten_conserves(ctx):
     R2_flatten(ctx)
 
 
-RULES = [R1_inventory, R2_cell_influence, R3_per_query, R4_conservation, R5_error_discipline, R6_lock_graph, R7_flatten_conserves]
+def R8_expansion_intact(ctx):
+    """C06.R8 "one response for every query after expansion": what the input stage hands to the search stage for one user query is
+    the whole flattened result of the plugins — apply_input_plugins returns json_array_flatten(..) as it is"""
+    F = ctx.F
+    ctx.rule("C06.R8", "apply_input_plugins: the Ok value is the vector json_array_flatten returned, never shortened, filtered or re-ordered afterwards (no truncate / drain / retain / dedup / pop / remove / split_off / sort on it, no truncating adaptor): a cap on the number of expanded queries silently drops the remaining combinations of a grid search", floor=1)
+    b = F.need(APP + "apply_input_plugins")
+    tm = Terms(b)
+    rt = tm.return_term()
+    alts = list(rt[1]) if rt[0] == "phi" else [rt]
+    oks = [a for a in alts if a[0] == "agg" and a[2] == "Ok"]
+    okv = len(oks) >= 1
+    why = "no Ok value"
+    for a in oks:
+        v = dict(a[3])["0"]
+        while v[0] in ("field", "variant") or (v[0] == "call" and ("Try>::branch" in v[1] or "Try::branch" in v[1])):
+            v = v[1] if v[0] != "call" else v[2][0]
+        if v[0] == "mut":
+            muts = [short(x)[:60] for x in (v[2] if len(v) > 2 else ())]
+            okv = False
+            why = "the flattened vector is modified after flattening: %s" % "; ".join(muts)[:160]
+            continue
+        if not (v[0] == "call" and v[1].split("{")[0].endswith("input_plugin_ops::json_array_flatten")):
+            okv = False
+            why = "the Ok value is %s" % short(v)[:120]
+    ctx.check(okv, "apply_input_plugins:returns-the-flattened-result", "apply_input_plugins does not return json_array_flatten(..) unchanged (%s)" % why, b.where(), detail="Ok(json_array_flatten(&mut plugin_state)?)")
+
+
+RULES = [R1_inventory, R2_cell_influence, R3_per_query, R4_conservation, R5_error_discipline, R6_lock_graph, R7_flatten_conserves, R8_expansion_intact]
